@@ -1,3 +1,4 @@
 import Properties.C17
 import Properties.C13
 import Properties.C20
+import Properties.C19
